@@ -41,6 +41,9 @@ class _Take:
         self.v = v
 
     def take(self, k):
+        # numpy: the interpolated value is a 0-d array; take(0) (or take(-1)) is its only element, anything else IndexError
+        if k not in (0, -1):
+            raise IndexError(f"index {k} is out of bounds for axis 0 with size 1")
         return self.v
 
 
@@ -340,6 +343,15 @@ class Mate:
     def __init__(self, **kw):
         self.__dict__.update(kw)
         self.name = kw.get("name", "mate")
+
+    _OPTIONAL = ("module", "face_width", "elastic_modulus", "reference_diameter", "helix_angle", "pressure_angle", "n_teeth", "n_starts",
+                 "mating_role", "drives", "driven_by", "tangential_force", "bending_stress", "contact_stress")
+
+    def __getattr__(self, name):
+        # a public gear attribute the job did not give the mate is an optional datum that is absent
+        if name in Mate._OPTIONAL:
+            return None
+        raise AttributeError(f"mate stand-in has no attribute {name!r}")
 
 
 def _register_mate():
